@@ -347,6 +347,10 @@ def gen_pixels(rng, mode: str, w: int, h: int) -> bytes:
                 out += rng.randbytes(3) + bytes((rng.choice((0, 127, 128, 200, 255)),))
         return bytes(out)
     if mode == 'fill':
+        if rng.random() < 0.5:
+            # the colours a fill is usually made with: black / white / one channel, with every kind of alpha
+            return bytes(rng.choice(((0, 0, 0, 0), (0, 0, 0, 128), (0, 0, 0, 255), (0, 0, 0, 1), (255, 255, 255, 0), (255, 255, 255, 255),
+                                     (0, 0, 1, 0), (255, 0, 255, 255), (0, 255, 0, 254), (128, 128, 128, 128)))) * n
         return rng.randbytes(4) * n
     if mode == 'sweep':
         # every value 0..255 occurs in every channel (needs n >= 256); channels are decorrelated by permutations
